@@ -1,5 +1,387 @@
+/-
+  Props/C03.lean — property theorems for C03 ("a process vanishing or being denied mid-call
+  yields only psutil errors"). Only statements the property makes; the program logic and the
+  body lemmas live in Proofs/C03*.lean.
+
+  `cfg` is built from Generated/C03.lean, which the translator rewrites from /repo's source on
+  every run; `cfg_good` is the proof obligation that breaks when an `except` list, a
+  `wrap_exceptions` clause or a decorator table changes (e.g. ppid_map() no longer tolerating
+  PermissionError = lead L3, a handler step dropped from wrap_exceptions, a method losing
+  @wrap_exceptions). `C03_all_methods` is stated over the generated list of public names, so a
+  new public method makes it fail until it is modelled or listed as uncovered.
+-/
+import PsutilModel.Proofs.C03Front
 import PsutilModel.Model.C03Gen
-import PsutilModel.Spec.C03
 namespace Psutil.C03
-theorem placeholder : cfg.hasRollup = true := by decide
+open Spec
+
+deriving instance DecidableEq for Except
+
+/-- proof obligation on the translator's output (HAS_PROC_SMAPS_ROLLUP is host dependent: both
+    values are covered) -/
+theorem cfg_good : cfg = goodCfg cfg.hasRollup := by decide
+
+/-- **the property, for one call**: under every admissible fault plan, from every state (any
+    well-formed oneshot cache), the outcome is a value or NoSuchProcess / ZombieProcess /
+    AccessDenied carrying `pid` — never a bare OSError, never a parsing error -/
+def Safe {α : Type} (pid : Nat) (m : M α) : Prop :=
+  ∀ c s, Adm c → CacheInv s.cache → OK pid (m c s).1
+
+theorem safe_of_tri {α : Type} {pid : Nat} {m : M α} {Q : α → Prop} (h : Tri (PsOnly pid) m Q) : Safe pid m := by
+  intro c s ha hi
+  have := h c s ha hi
+  rcases hr : m c s with ⟨res, s'⟩
+  rw [hr] at this
+  cases res with
+  | ok a => trivial
+  | error e =>
+    rcases this.1 with h | h | h <;> subst h <;> simp [OK]
+
+/-- the named public method is modelled and safe -/
+def MethodOK (o : Obj) (nm : String) : Prop := ∃ m, Fe.method cfg o nm = some m ∧ Safe o.pid m
+
+theorem methodOK_of_getter {o : Obj} {nm : String} (h : ∀ b, GetterOK b o nm)
+    (hm : ∀ b, Fe.method (goodCfg b) o nm = Fe.getter (goodCfg b) o nm) : MethodOK o nm := by
+  unfold MethodOK
+  rw [cfg_good]
+  obtain ⟨m, hg, ht⟩ := h cfg.hasRollup
+  exact ⟨m, by rw [hm, hg], safe_of_tri ht⟩
+
+/-! ## one theorem per modelled public method (all admissible plans, any number of
+    threads / descriptors / other PIDs — the loops are handled by induction) -/
+
+theorem C03_safe_pid (o : Obj) : MethodOK o "pid" :=
+  methodOK_of_getter (fun b => getter_pid b o) (fun _ => rfl)
+
+theorem C03_safe_ppid (o : Obj) : MethodOK o "ppid" :=
+  methodOK_of_getter (fun b => getter_ppid b o) (fun _ => rfl)
+
+theorem C03_safe_name (o : Obj) : MethodOK o "name" :=
+  methodOK_of_getter (fun b => getter_name b o) (fun _ => rfl)
+
+theorem C03_safe_exe (o : Obj) : MethodOK o "exe" :=
+  methodOK_of_getter (fun b => getter_exe b o) (fun _ => rfl)
+
+theorem C03_safe_cmdline (o : Obj) : MethodOK o "cmdline" :=
+  methodOK_of_getter (fun b => getter_cmdline b o) (fun _ => rfl)
+
+theorem C03_safe_status (o : Obj) : MethodOK o "status" :=
+  methodOK_of_getter (fun b => getter_status b o) (fun _ => rfl)
+
+theorem C03_safe_username (o : Obj) : MethodOK o "username" :=
+  methodOK_of_getter (fun b => getter_username b o) (fun _ => rfl)
+
+theorem C03_safe_create_time (o : Obj) : MethodOK o "create_time" :=
+  methodOK_of_getter (fun b => getter_create_time b o) (fun _ => rfl)
+
+theorem C03_safe_cwd (o : Obj) : MethodOK o "cwd" :=
+  methodOK_of_getter (fun b => getter_cwd b o) (fun _ => rfl)
+
+theorem C03_safe_nice (o : Obj) : MethodOK o "nice" :=
+  methodOK_of_getter (fun b => getter_nice b o) (fun _ => rfl)
+
+theorem C03_safe_uids (o : Obj) : MethodOK o "uids" :=
+  methodOK_of_getter (fun b => getter_uids b o) (fun _ => rfl)
+
+theorem C03_safe_gids (o : Obj) : MethodOK o "gids" :=
+  methodOK_of_getter (fun b => getter_gids b o) (fun _ => rfl)
+
+theorem C03_safe_terminal (o : Obj) : MethodOK o "terminal" :=
+  methodOK_of_getter (fun b => getter_terminal b o) (fun _ => rfl)
+
+theorem C03_safe_num_fds (o : Obj) : MethodOK o "num_fds" :=
+  methodOK_of_getter (fun b => getter_num_fds b o) (fun _ => rfl)
+
+theorem C03_safe_io_counters (o : Obj) : MethodOK o "io_counters" :=
+  methodOK_of_getter (fun b => getter_io_counters b o) (fun _ => rfl)
+
+theorem C03_safe_ionice (o : Obj) : MethodOK o "ionice" :=
+  methodOK_of_getter (fun b => getter_ionice b o) (fun _ => rfl)
+
+theorem C03_safe_cpu_affinity (o : Obj) : MethodOK o "cpu_affinity" :=
+  methodOK_of_getter (fun b => getter_cpu_affinity b o) (fun _ => rfl)
+
+theorem C03_safe_cpu_num (o : Obj) : MethodOK o "cpu_num" :=
+  methodOK_of_getter (fun b => getter_cpu_num b o) (fun _ => rfl)
+
+theorem C03_safe_environ (o : Obj) : MethodOK o "environ" :=
+  methodOK_of_getter (fun b => getter_environ b o) (fun _ => rfl)
+
+theorem C03_safe_num_ctx_switches (o : Obj) : MethodOK o "num_ctx_switches" :=
+  methodOK_of_getter (fun b => getter_num_ctx_switches b o) (fun _ => rfl)
+
+theorem C03_safe_num_threads (o : Obj) : MethodOK o "num_threads" :=
+  methodOK_of_getter (fun b => getter_num_threads b o) (fun _ => rfl)
+
+theorem C03_safe_threads (o : Obj) : MethodOK o "threads" :=
+  methodOK_of_getter (fun b => getter_threads b o) (fun _ => rfl)
+
+theorem C03_safe_cpu_times (o : Obj) : MethodOK o "cpu_times" :=
+  methodOK_of_getter (fun b => getter_cpu_times b o) (fun _ => rfl)
+
+theorem C03_safe_cpu_percent (o : Obj) : MethodOK o "cpu_percent" :=
+  methodOK_of_getter (fun b => getter_cpu_percent b o) (fun _ => rfl)
+
+theorem C03_safe_memory_info (o : Obj) : MethodOK o "memory_info" :=
+  methodOK_of_getter (fun b => getter_memory_info b o) (fun _ => rfl)
+
+theorem C03_safe_memory_full_info (o : Obj) : MethodOK o "memory_full_info" :=
+  methodOK_of_getter (fun b => getter_memory_full_info b o) (fun _ => rfl)
+
+theorem C03_safe_memory_percent (o : Obj) : MethodOK o "memory_percent" :=
+  methodOK_of_getter (fun b => getter_memory_percent b o) (fun _ => rfl)
+
+theorem C03_safe_memory_maps (o : Obj) : MethodOK o "memory_maps" :=
+  methodOK_of_getter (fun b => getter_memory_maps b o) (fun _ => rfl)
+
+theorem C03_safe_open_files (o : Obj) : MethodOK o "open_files" :=
+  methodOK_of_getter (fun b => getter_open_files b o) (fun _ => rfl)
+
+theorem C03_safe_net_connections (o : Obj) : MethodOK o "net_connections" :=
+  methodOK_of_getter (fun b => getter_net_connections b o) (fun _ => rfl)
+
+
+/-- is_running() never raises at all -/
+theorem C03_safe_is_running (o : Obj) : MethodOK o "is_running" := by
+  unfold MethodOK; rw [cfg_good]
+  refine ⟨_, rfl, safe_of_tri (Q := fun _ => True) ?_⟩
+  exact tri_bind (tri_exc (isRunning_safe _ o) (fun _ _ _ h => h.elim))
+    (fun x _ => by cases x; exact tri_pure trivial)
+
+/-- rlimit(resource) (get); PID 0 is rejected with ValueError by design -/
+theorem C03_safe_rlimit (o : Obj) (h0 : o.pid ≠ 0) : MethodOK o "rlimit" := by
+  unfold MethodOK; rw [cfg_good]
+  exact ⟨_, rfl, safe_of_tri (Q := fun _ => True) (tri_bind (rlimit_safe _ o.pid h0) (fun _ _ => tri_pure trivial))⟩
+
+/-! ## the decorator of every platform method: no bare OSError, in particular the bare `raise`
+    of the FileNotFoundError clause is unreachable under admissible plans -/
+
+theorem C03_wrap_safe {α : Type} (p : Nat) {body : M α} {Q : α → Prop} (hb : Tri (ExcOK p) body Q) :
+    Safe p (wrapExceptions cfg p body) := by
+  rw [cfg_good]; exact safe_of_tri (wrap_safe _ p hb)
+
+theorem C03_wrap_never_bare_fnf {α : Type} (p : Nat) {body : M α} {Q : α → Prop} (hb : Tri (ExcOK p) body Q)
+    (c : Ctx) (s : St) (ha : Adm c) (hi : CacheInv s.cache) :
+    (wrapExceptions cfg p body c s).1 ≠ .error .fnf := by
+  intro h
+  have := C03_wrap_safe p hb c s ha hi
+  rw [h] at this
+  exact this
+
+/-- witnesses live on this world: PIDs 101 and 105 (child of 101), the object is 105 -/
+def w0 : World :=
+  { target := 105
+    procs := [⟨101, 1, 50, false, false, [(101, false)], [], false⟩,
+              ⟨105, 101, 100, false, false, [(105, false)], [], false⟩] }
+
+/-- the admissibility bound is tight: with TWO refused accesses (lexists of /proc/105 and the
+    stat probe of `_is_zombie`) a zombie's exe() does leak the bare FileNotFoundError -/
+theorem C03_two_denials_leak :
+    (Plat.exe (goodCfg true) 105
+      ⟨w0, zombieFrom 0, fun k => if k = 1 ∨ k = 2 then some .EACCES else none⟩ {}).1 = .error .fnf := by
+  decide
+
+/-! ## as_dict / process_iter -/
+
+/-- every name as_dict() accepts is a modelled getter (translator fact `asDictNames`) -/
+theorem C03_as_dict_names_modelled : ∀ nm ∈ asDictNames, nm ∈ getterNames := by decide
+
+/-- as_dict(attrs): AccessDenied and ZombieProcess are replaced by ad_value; the only exception
+    that can leave is NoSuchProcess(pid); the oneshot cache is left well-formed -/
+theorem C03_as_dict_policy (o : Obj) (attrs : List String) (h : ∀ nm ∈ attrs, nm ∈ asDictNames)
+    (c : Ctx) (s : St) (ha : Adm c) (hi : CacheInv s.cache) :
+    match (Fe.asDict cfg o attrs c s).1 with
+    | .ok _ => True
+    | .error e => e = .nsp o.pid := by
+  rw [cfg_good]
+  have := asDict_safe cfg.hasRollup o attrs (fun nm hnm => C03_as_dict_names_modelled nm (h nm hnm)) c s ha hi
+  rcases hr : Fe.asDict (goodCfg cfg.hasRollup) o attrs c s with ⟨res, s'⟩
+  rw [hr] at this
+  cases res with
+  | ok v => trivial
+  | error e => exact this.1
+
+/-- process_iter(attrs) swallows NoSuchProcess (the pid is dropped) and never raises -/
+theorem C03_process_iter_swallow (attrs : List String) (h : ∀ nm ∈ attrs, nm ∈ asDictNames)
+    (c : Ctx) (s : St) (ha : Adm c) (hi : CacheInv s.cache) :
+    ∃ v, (Fe.processIter cfg attrs c s).1 = .ok v := by
+  rw [cfg_good]
+  have := processIter_safe cfg.hasRollup attrs (fun nm hnm => C03_as_dict_names_modelled nm (h nm hnm)) c s ha hi
+  rcases hr : Fe.processIter (goodCfg cfg.hasRollup) attrs c s with ⟨res, s'⟩
+  rw [hr] at this
+  cases res with
+  | ok v => exact ⟨v, rfl⟩
+  | error e => exact this.1.elim
+
+/-! ## children() and parent(): lead L3 -/
+
+/-- full strength: children() is safe -/
+def C03_safe_children_Full : Prop := ∀ o : Obj, MethodOK o "children"
+def C03_safe_parent_Full : Prop := ∀ o : Obj, MethodOK o "parent"
+
+/-- what is proved of the repaired code: no bare OSError, no parsing error; a psutil error for
+    the object's pid — or AccessDenied carrying the pid of a child/parent whose create time had to
+    be read twice (needs two refusals, so it is excluded by `DenyOnce`; that last step is not
+    proved here and is covered by the exhaustive single/double fault correspondence) -/
+def WeakOK {α : Type} (pid : Nat) : Except PyExc α → Prop
+  | .ok _ => True
+  | .error e => e = .nsp pid ∨ e = .zombie pid ∨ e = .ad pid ∨ ∃ q, e = .ad q
+
+theorem weak_of_tri {α : Type} {pid : Nat} {m : M α} {Q : α → Prop} (h : Tri (OrAd pid) m Q)
+    (c : Ctx) (s : St) (ha : Adm c) (hi : CacheInv s.cache) : WeakOK pid (m c s).1 := by
+  have := h c s ha hi
+  rcases hr : m c s with ⟨res, s'⟩
+  rw [hr] at this
+  cases res with
+  | ok a => trivial
+  | error e =>
+    rcases this.1 with h | h
+    · rcases h with h | h | h <;> subst h <;> simp [WeakOK]
+    · exact Or.inr (Or.inr (Or.inr h))
+
+theorem C03_safe_children_partial (o : Obj) (c : Ctx) (s : St) (ha : Adm c) (hi : CacheInv s.cache) :
+    WeakOK o.pid (Fe.children cfg o c s).1 := by
+  rw [cfg_good]; exact weak_of_tri (children_partial_safe _ o) c s ha hi
+
+theorem C03_safe_parent_partial (o : Obj) (c : Ctx) (s : St) (ha : Adm c) (hi : CacheInv s.cache) :
+    WeakOK o.pid (Fe.parent cfg o c s).1 := by
+  rw [cfg_good]; exact weak_of_tri (parent_partial_safe _ o) c s ha hi
+
+/-- ppid_map() itself lets nothing escape once PermissionError is tolerated -/
+theorem C03_ppid_map_total (c : Ctx) (s : St) (ha : Adm c) (hi : CacheInv s.cache) :
+    ∃ v, (Plat.ppidMap cfg c s).1 = .ok v := by
+  rw [cfg_good]
+  have := ppidMap_safe cfg.hasRollup c s ha hi
+  rcases hr : Plat.ppidMap (goodCfg cfg.hasRollup) c s with ⟨res, s'⟩
+  rw [hr] at this
+  cases res with
+  | ok v => exact ⟨v, rfl⟩
+  | error e => exact this.1.elim
+
+theorem adm_w0_deny (i : Nat) : Adm ⟨w0, alwaysAlive, denyAt i .EACCES⟩ := by
+  refine ⟨fun _ _ _ => Nat.le_refl _, ⟨fun j e h => ?_, fun a b e e' h1 h2 => ?_⟩, ?_⟩
+  · simp only [denyAt] at h; split at h <;> simp at h; exact Or.inl h.symm
+  · simp only [denyAt] at h1 h2
+    split at h1 <;> split at h2 <;> simp_all
+  · exact ⟨⟨101, 1, 50, false, false, [(101, false)], [], false⟩, by simp [w0], by simp [w0]⟩
+
+/-- **lead L3, re-found**: with the source as it was (ppid_map() tolerating only
+    ENOENT/ESRCH) a single EACCES on the open of /proc/101/stat (access 3 of children()) makes
+    Process(105).children() raise the bare builtin PermissionError -/
+theorem C03_children_prefix_counterexample :
+    ¬ (∀ (o : Obj) (c : Ctx) (s : St), Adm c → CacheInv s.cache →
+        WeakOK o.pid (Fe.children (preFixCfg true) o c s).1) := by
+  intro h
+  have := h w0.obj ⟨w0, alwaysAlive, denyAt 3 .EACCES⟩ {} (adm_w0_deny 3) cacheInv_empty
+  have hrun : (Fe.children (preFixCfg true) w0.obj ⟨w0, alwaysAlive, denyAt 3 .EACCES⟩ {}).1 = .error .perm := by
+    decide
+  rw [hrun] at this
+  simp [WeakOK] at this
+
+/-- … and the same plan on the repaired source yields a value -/
+theorem C03_children_fixed_witness :
+    (Fe.children (goodCfg true) w0.obj ⟨w0, alwaysAlive, denyAt 3 .EACCES⟩ {}).1 = .ok (.procs []) := by
+  decide
+
+/-! ## assembly over the translator-generated list of public names -/
+
+/-- public names that are not queries about the process (signals, wait, the context manager):
+    out of this property's scope (C01, C15, C16) -/
+def notQueries : List String := ["kill", "oneshot", "resume", "send_signal", "suspend", "terminate", "wait"]
+/-- queries NOT covered by a C03 theorem (listed, never silently dropped):
+    `connections` = deprecated alias of net_connections (adds a warning); `parents` = loop over parent() (C05) -/
+def uncovered : List String := ["connections", "parents"]
+/-- covered by a `_partial` theorem only -/
+def partialOnly : List String := ["children", "parent"]
+/-- covered by its own policy theorem (`C03_as_dict_policy`) -/
+def byPolicy : List String := ["as_dict"]
+
+theorem C03_all_methods (o : Obj) (h0 : o.pid ≠ 0) :
+    ∀ nm ∈ publicMethods,
+      nm ∈ notQueries ∨ nm ∈ uncovered ∨ nm ∈ partialOnly ∨ nm ∈ byPolicy ∨ MethodOK o nm :=
+  show ∀ nm ∈ ["as_dict", "children", "cmdline", "connections", "cpu_affinity", "cpu_num", "cpu_percent", "cpu_times", "create_time", "cwd", "environ", "exe", "gids", "io_counters", "ionice", "is_running", "kill", "memory_full_info", "memory_info", "memory_maps", "memory_percent", "name", "net_connections", "nice", "num_ctx_switches", "num_fds", "num_threads", "oneshot", "open_files", "parent", "parents", "pid", "ppid", "resume", "rlimit", "send_signal", "status", "suspend", "terminal", "terminate", "threads", "uids", "username", "wait"],
+      nm ∈ notQueries ∨ nm ∈ uncovered ∨ nm ∈ partialOnly ∨ nm ∈ byPolicy ∨ MethodOK o nm from
+  List.forall_mem_cons.2 ⟨Or.inr (Or.inr (Or.inr (Or.inl (by decide)))),
+    List.forall_mem_cons.2 ⟨Or.inr (Or.inr (Or.inl (by decide))),
+    List.forall_mem_cons.2 ⟨Or.inr (Or.inr (Or.inr (Or.inr (C03_safe_cmdline o)))),
+    List.forall_mem_cons.2 ⟨Or.inr (Or.inl (by decide)),
+    List.forall_mem_cons.2 ⟨Or.inr (Or.inr (Or.inr (Or.inr (C03_safe_cpu_affinity o)))),
+    List.forall_mem_cons.2 ⟨Or.inr (Or.inr (Or.inr (Or.inr (C03_safe_cpu_num o)))),
+    List.forall_mem_cons.2 ⟨Or.inr (Or.inr (Or.inr (Or.inr (C03_safe_cpu_percent o)))),
+    List.forall_mem_cons.2 ⟨Or.inr (Or.inr (Or.inr (Or.inr (C03_safe_cpu_times o)))),
+    List.forall_mem_cons.2 ⟨Or.inr (Or.inr (Or.inr (Or.inr (C03_safe_create_time o)))),
+    List.forall_mem_cons.2 ⟨Or.inr (Or.inr (Or.inr (Or.inr (C03_safe_cwd o)))),
+    List.forall_mem_cons.2 ⟨Or.inr (Or.inr (Or.inr (Or.inr (C03_safe_environ o)))),
+    List.forall_mem_cons.2 ⟨Or.inr (Or.inr (Or.inr (Or.inr (C03_safe_exe o)))),
+    List.forall_mem_cons.2 ⟨Or.inr (Or.inr (Or.inr (Or.inr (C03_safe_gids o)))),
+    List.forall_mem_cons.2 ⟨Or.inr (Or.inr (Or.inr (Or.inr (C03_safe_io_counters o)))),
+    List.forall_mem_cons.2 ⟨Or.inr (Or.inr (Or.inr (Or.inr (C03_safe_ionice o)))),
+    List.forall_mem_cons.2 ⟨Or.inr (Or.inr (Or.inr (Or.inr (C03_safe_is_running o)))),
+    List.forall_mem_cons.2 ⟨Or.inl (by decide),
+    List.forall_mem_cons.2 ⟨Or.inr (Or.inr (Or.inr (Or.inr (C03_safe_memory_full_info o)))),
+    List.forall_mem_cons.2 ⟨Or.inr (Or.inr (Or.inr (Or.inr (C03_safe_memory_info o)))),
+    List.forall_mem_cons.2 ⟨Or.inr (Or.inr (Or.inr (Or.inr (C03_safe_memory_maps o)))),
+    List.forall_mem_cons.2 ⟨Or.inr (Or.inr (Or.inr (Or.inr (C03_safe_memory_percent o)))),
+    List.forall_mem_cons.2 ⟨Or.inr (Or.inr (Or.inr (Or.inr (C03_safe_name o)))),
+    List.forall_mem_cons.2 ⟨Or.inr (Or.inr (Or.inr (Or.inr (C03_safe_net_connections o)))),
+    List.forall_mem_cons.2 ⟨Or.inr (Or.inr (Or.inr (Or.inr (C03_safe_nice o)))),
+    List.forall_mem_cons.2 ⟨Or.inr (Or.inr (Or.inr (Or.inr (C03_safe_num_ctx_switches o)))),
+    List.forall_mem_cons.2 ⟨Or.inr (Or.inr (Or.inr (Or.inr (C03_safe_num_fds o)))),
+    List.forall_mem_cons.2 ⟨Or.inr (Or.inr (Or.inr (Or.inr (C03_safe_num_threads o)))),
+    List.forall_mem_cons.2 ⟨Or.inl (by decide),
+    List.forall_mem_cons.2 ⟨Or.inr (Or.inr (Or.inr (Or.inr (C03_safe_open_files o)))),
+    List.forall_mem_cons.2 ⟨Or.inr (Or.inr (Or.inl (by decide))),
+    List.forall_mem_cons.2 ⟨Or.inr (Or.inl (by decide)),
+    List.forall_mem_cons.2 ⟨Or.inr (Or.inr (Or.inr (Or.inr (C03_safe_pid o)))),
+    List.forall_mem_cons.2 ⟨Or.inr (Or.inr (Or.inr (Or.inr (C03_safe_ppid o)))),
+    List.forall_mem_cons.2 ⟨Or.inl (by decide),
+    List.forall_mem_cons.2 ⟨Or.inr (Or.inr (Or.inr (Or.inr (C03_safe_rlimit o h0)))),
+    List.forall_mem_cons.2 ⟨Or.inl (by decide),
+    List.forall_mem_cons.2 ⟨Or.inr (Or.inr (Or.inr (Or.inr (C03_safe_status o)))),
+    List.forall_mem_cons.2 ⟨Or.inl (by decide),
+    List.forall_mem_cons.2 ⟨Or.inr (Or.inr (Or.inr (Or.inr (C03_safe_terminal o)))),
+    List.forall_mem_cons.2 ⟨Or.inl (by decide),
+    List.forall_mem_cons.2 ⟨Or.inr (Or.inr (Or.inr (Or.inr (C03_safe_threads o)))),
+    List.forall_mem_cons.2 ⟨Or.inr (Or.inr (Or.inr (Or.inr (C03_safe_uids o)))),
+    List.forall_mem_cons.2 ⟨Or.inr (Or.inr (Or.inr (Or.inr (C03_safe_username o)))),
+    List.forall_mem_cons.2 ⟨Or.inl (by decide),
+    (fun _ h => nomatch h)⟩⟩⟩⟩⟩⟩⟩⟩⟩⟩⟩⟩⟩⟩⟩⟩⟩⟩⟩⟩⟩⟩⟩⟩⟩⟩⟩⟩⟩⟩⟩⟩⟩⟩⟩⟩⟩⟩⟩⟩⟩⟩⟩⟩
+
+/-! ## the property's four plan shapes are admissible (the theorems cover a superset) -/
+
+theorem C03_plans_admissible (w : World) (hw : ∃ i ∈ w.procs, i.pid ≠ w.target)
+    {ws : Nat → WS} {deny : Nat → Option Errno} (h : PropertyPlan ws deny) : Adm ⟨w, ws, deny⟩ := by
+  have hvan : ∀ k, Monotone (vanishAt k) := by
+    intro k i j hij; simp only [vanishAt]; split <;> split <;> simp [WS.rank] <;> omega
+  have hzom : ∀ k, Monotone (zombieFrom k) := by
+    intro k i j hij; simp only [zombieFrom]; split <;> split <;> simp [WS.rank] <;> omega
+  have hno : DenyOnce noDeny := by
+    unfold DenyOnce noDeny
+    exact ⟨fun _ _ h => (by cases h), fun _ _ _ _ h _ => (by cases h)⟩
+  have hden : ∀ i e, (e = Errno.EACCES ∨ e = Errno.EPERM) → DenyOnce (denyAt i e) := by
+    intro i e he
+    unfold DenyOnce
+    refine ⟨fun j e' h => ?_, fun a b e1 e2 h1 h2 => ?_⟩
+    · simp only [denyAt] at h; split at h <;> simp at h; subst h; exact he
+    · simp only [denyAt] at h1 h2
+      split at h1 <;> split at h2 <;> simp_all
+  cases h with
+  | vanish k => exact ⟨hvan k, hno, hw⟩
+  | zombie k => exact ⟨hzom k, hno, hw⟩
+  | deny i e he => exact ⟨fun _ _ _ => Nat.le_refl _, hden i e he, hw⟩
+  | denyVanish i j e he hij => exact ⟨hvan j, hden i e he, hw⟩
+
+/-! ## non-vacuity: admissible plans exist, and faults do reach the handlers -/
+
+example : Adm ⟨w0, vanishAt 2, noDeny⟩ :=
+  C03_plans_admissible w0 ⟨⟨101, 1, 50, false, false, [(101, false)], [], false⟩, by simp [w0], by simp [w0]⟩
+    (PropertyPlan.vanish 2)
+
+/-- the process vanishes between the open and the read of /proc/105/stat: NoSuchProcess(105) -/
+example : (Fe.name (goodCfg true) w0.obj ⟨w0, vanishAt 1, noDeny⟩ {}).1 = .error (.nsp 105) := by decide
+/-- a zombie's exe(): ZombieProcess(105) -/
+example : (Fe.exe (goodCfg true) w0.obj ⟨w0, zombieFrom 0, noDeny⟩ {}).1 = .error (.zombie 105) := by decide
+/-- EPERM on the read: AccessDenied(105) -/
+example : (Fe.name (goodCfg true) w0.obj ⟨w0, alwaysAlive, denyAt 1 .EPERM⟩ {}).1 = .error (.ad 105) := by decide
+
 end Psutil.C03
